@@ -45,8 +45,13 @@ theorem floorRem_lt (x : ℝ) {y : ℝ} (hy : 0 < y) : x - y * ⌊x / y⌋ < y :
 /-- Rust `f64::rem_euclid` over ℝ, positive modulus: `v − y⌊v/y⌋`, whichever `fmod` branch is
 taken (truncation towards zero for a negative quotient, then the `+ |y|` correction). -/
 theorem remEuclid_real (v : ℝ) {y : ℝ} (hy : 0 < y) : remEuclid v y = v - y * ⌊v / y⌋ := by
-  unfold remEuclid
-  simp only [nfmod_real, nabs_real, abs_of_pos hy]
+  have key : remEuclid v y =
+      if (if 0 ≤ v / y then v - y * ⌊v / y⌋ else v - y * ⌈v / y⌉) < 0
+      then (if 0 ≤ v / y then v - y * ⌊v / y⌋ else v - y * ⌈v / y⌉) + |y|
+      else (if 0 ≤ v / y then v - y * ⌊v / y⌋ else v - y * ⌈v / y⌉) := by
+    unfold remEuclid
+    simp only [nfmod_real, nabs_real, lit0]
+  rw [key, abs_of_pos hy]
   by_cases hq : 0 ≤ v / y
   · rw [if_pos hq, if_neg (not_lt.mpr (floorRem_nonneg v hy))]
   · rw [if_neg hq]
@@ -173,7 +178,7 @@ theorem V3.lagrange (a b : V3 ℝ) :
   simp only [V3.normSq, V3.dot, V3.cross]; ring
 
 /-- a rotation matrix preserves dot products (uses only `mᵀ m = 1`) -/
-theorem IsRot.dot_mulVec {m : M3 ℝ} (h : IsRot m) (u v : V3 ℝ) :
+theorem _root_.Opw.IsRot.dot_mulVec {m : M3 ℝ} (h : IsRot m) (u v : V3 ℝ) :
     V3.dot (m.mulVec u) (m.mulVec v) = V3.dot u v := by
   have e := h.eqs
   simp only [V3.dot, M3.mulVec]
@@ -182,7 +187,7 @@ theorem IsRot.dot_mulVec {m : M3 ℝ} (h : IsRot m) (u v : V3 ℝ) :
     + (u.y * v.z + u.z * v.y) * e.hc12
 
 /-- a rotation matrix preserves the length of cross products -/
-theorem IsRot.cross_normSq {m : M3 ℝ} (h : IsRot m) (a b : V3 ℝ) :
+theorem _root_.Opw.IsRot.cross_normSq {m : M3 ℝ} (h : IsRot m) (a b : V3 ℝ) :
     (V3.cross (m.mulVec a) (m.mulVec b)).normSq = (V3.cross a b).normSq := by
   rw [V3.lagrange, V3.lagrange, h.dot_mulVec, h.normSq_mulVec, h.normSq_mulVec]
 
